@@ -39,6 +39,14 @@ CHECKS = {
    technique="RxO table transcribed as a TLA+ operator (QosRxO.tla); TLC enumerates all value pairs per policy in 9 contexts and checks the algebra; every case replayed on the real compliance_failure_wrt / update_writer_proxy / update_reader_proxy; TLC trace validation with the same operator as oracle",
    text="TLC enumerates 3925 offered/requested pairs (every pair of values of each policy with the other policies absent, compatible, or exactly one other incompatible) and checks monotonicity of the table; each case plus seeded samples of the full product is judged by the real function and by a real Reader and a real Writer (match sets and status events), and TLC validates: verdict None iff no rule violated, reported policy really violated, both sides agree, the matching status events are truthful.",
    note="value classes for durations and strengths; DDS 1.4 table as transcribed; policies absent on either side are skipped as the statement says"),
+ "C08": dict(level="exploration", engine="tlc+cache-driver", design="§4 C08",
+   technique="abstract DataReader cache semantics in TLA+ (SampleCacheAbs.tla); results of every read/take form of the real DataReader validated by TLC (Trace_SampleCache.tla)",
+   text="Values and disposes (by key and by key hash) of several instances from two writers are injected as real datagrams; read, take, read/take_next_sample, iterator, into_iterator, read/take_instance (This/Next), both conditions, max 1/2/all and both async streams are called at random points; every returned SampleInfo (sample, view, instance state, generation counts), membership, order, take-once, read-marks-read, condition exactness and the KeepLast bound are judged by the TLA+ transcription of DDS 1.4 section 2.2.2.5.1 on every real run.",
+   note="arrivals listed in hand-over order (reliable: per writer); KeepLast as upper bound, 'most recent' judged only when hand-over and reception order agree; dispose by key hash only from the instance's creator; identity-less bare disposes judged as far as possible; model checking of an implementation-shaped cache model not built yet"),
+ "C09": dict(level="exploration", engine="tlc+cache-driver under supervisor", design="§4 C09",
+   technique="TLA+ trace validation (SampleCacheAbs.tla) of every read/take form over caches containing unintelligible changes; supervisor turns a call that does not return into a trace event",
+   text="Undecodable payloads, unknown representation identifiers and disposes by unseen key hash are placed at random positions among values and disposes of two writers, for reliable and best-effort readers; each of the 8 DataReader forms, both async streams and SimpleDataReader::try_take_one is called at random points and then until empty, under a supervisor with a progress watchdog. TLC validates: every call returns, an unintelligible change is never delivered and is reported at most once, every intelligible change is delivered.",
+   note="with_key readers (no_key wraps the same code); 8 s without progress = the call did not return"),
 }
 NOT_APPLICABLE = {}
 
